@@ -234,6 +234,11 @@ def run(ctx):
             t = ("Or", c, ("And", d, t))
         return t
     shapes += [Shape(("And", nest(a, 3), ("Not", nest(b, 3)))), Shape(("And", ("Not", nest(a, 3)), nest(b, 3)))]
+    # both orientations of a non-commutative connective over the same operands
+    shapes += [Shape(("Or", ("Implies", a, b), ("Implies", b, a))), Shape(("And", ("Implies", a, b), ("Not", ("Implies", b, a)))),
+               Shape(("And", ("Ite", c, a, b), ("Not", ("Ite", c, b, a)))), Shape(("Iff", ("Ite", a, b, c), ("Ite", b, a, c))),
+               Shape(("And", ("Or", ("Implies", a, b), c), ("Or", ("Implies", b, a), ("Not", c)))),
+               Shape(("Or", ("And", a, b), ("And", b, a), ("Iff", a, b), ("Iff", b, a)))]
     jobs = []
     for sh in shapes:
         jobs.append(("pysmt.rewritings.CNFizer", sh))
